@@ -6,6 +6,13 @@ import Rtp.Pred.Common
 namespace Rtp.Pred.C09Av1
 open Rtp
 
+/-- the exported metadata of AV1Depacketizer -/
+structure Md where
+  z : Bool
+  y : Bool
+  n : Bool
+  deriving DecidableEq, Repr, Inhabited
+
 structure PktCall where
   res      : Res Bytes          -- AV1Packet.Unmarshal
   z : Bool
